@@ -211,7 +211,7 @@ for _o in (True, False):
                               encodes=["hypnotoad.core.mesh:MeshRegion.calcMetric", "hypnotoad.core.mesh:MeshRegion.geometry2"],
                               desc="each metric output is invariant or exactly negated according to its tensor character", stubs=["as C02"], bounds="all reals"))
     if _o:
-        OBLIGATIONS.append(Ob("metric_psi_divide_twopi_orth", _mk_scale(True), tier="quick", wall_s=240, family="field reversal",
+        OBLIGATIONS.append(Ob("metric_psi_divide_twopi_orth", _mk_scale(True), tier="quick", wall_s=1200, family="field reversal",
                               encodes=["hypnotoad.core.mesh:MeshRegion.calcMetric", "hypnotoad.core.mesh:MeshRegion.geometry2"],
                               desc="homogeneous outputs scale with the documented power of k when psi -> psi/k", stubs=["as C02"], bounds="k in [1.5, 8]"))
     else:
